@@ -5,6 +5,7 @@ import CogentModel.Model.DataStoreSqlite
 import CogentModel.Spec.DataStoreDict
 import CogentModel.Spec.DataStoreSqlSafe
 import CogentModel.Gen.C13Fmt
+import CogentModel.Model.DataStoreZip
 import CogentModel.Gen.C13Sql
 open CogentModel CogentModel.KV CogentModel.DataStore
 
@@ -169,6 +170,13 @@ def handle (cmd : String) (j : J) : Except String J :=
     pure (J.obj [("fs", fs), ("suffix", S (pathSuffixDot uid)), ("suffixes", J.arr ((pathSuffixesDot uid).map S)),
       ("lower", S (lower uid)), ("nodot", S (reSubLeadDot [] uid)),
       ("sqlids", J.arr [S (Gen.C13Sql.write_id uid), S (Gen.C13Sql.write_nc_id uid), S (Gen.C13Sql.write_log_id uid)])])
+  | "zip" => do
+    -- ReadOnlyDataStoreZipped: the three listings of an archive with the given entry names (in namelist order)
+    let sfx := (← (← j.get "sfx").toStr).toList
+    let top := (← (← j.get "top").toStr).toList
+    let names := (← (← j.get "names").toListOf J.toStr).map String.toList
+    pure (J.obj [("c", J.arr ((DataStoreZip.zCompleted sfx names).map S)), ("nc", J.arr ((DataStoreZip.zNotCompleted names).map S)),
+      ("logs", J.arr ((DataStoreZip.zLogs names).map S)), ("ctop", J.arr ((DataStoreZip.zCompletedTop top sfx names).map S))])
   | _ => throw s!"unknown command {cmd}"
 
 def main : IO Unit := driverLoop handle
